@@ -85,6 +85,8 @@ def direct_effects(repo, f):
         if isinstance(n, ast.Global):
             declared_global |= set(n.names)
 
+    local_names = {x.id for x in ast.walk(f.node) if isinstance(x, ast.Name) and isinstance(x.ctx, ast.Store)} - declared_global
+
     def param_of(name):
         if name in pidx:
             return pidx[name]
@@ -106,6 +108,9 @@ def direct_effects(repo, f):
                     eff.global_writes.add(f'{res[1].name}.{t.attr}')
                 elif r == 'cls' and f.cls is not None:
                     eff.global_writes.add(f'{f.cls.qual}.{t.attr}')
+                elif isinstance(res, tuple) and res[0] == 'const' and r not in local_names:
+                    # attribute store on a module-level object (e.g. the process-wide sim_params instance)
+                    eff.global_writes.add(f'{res[2].name}.{r}.{t.attr}')
         elif isinstance(t, ast.Subscript):
             r = root_name(t)
             i = param_of(r) if r else None
